@@ -83,6 +83,18 @@ def apply_faults(tokens, faults):
             toks.insert(i, (ch, "badchar", None))
         elif kind == "badunits":
             toks.insert(i, ("<m<s>", "badunits", None))
+        elif kind == "begin-form":
+            # the first begin keyword at or after i changes between its plain and its
+            # BEGIN_ form (same block for PVL/ODL/PDS3/default; the ISIS grammar does
+            # not know the BEGIN_ forms)
+            for j in list(range(i, len(toks))) + list(range(0, i)):
+                fold = toks[j][0].casefold()
+                if toks[j][1] == "word" and fold in ("group", "object", "begin_group",
+                                                     "begin_object"):
+                    new = toks[j][0][6:] if fold.startswith("begin_") else \
+                        "BEGIN_" + toks[j][0]
+                    toks[j] = (new, "word", None)
+                    break
         elif kind == "badword":
             # the first bare word at or after i gets a comment delimiter glued to its
             # end ('foo*/'): no dialect lets an unquoted lexeme contain one
@@ -145,6 +157,7 @@ def fault_strategy():
         st.tuples(st.just("unclose"), idx),
         st.tuples(st.just("unclose-quote"), idx),
         st.tuples(st.just("badword"), idx),
+        st.tuples(st.just("begin-form"), idx),
     )
     return st.lists(one, min_size=1, max_size=3)
 
@@ -307,7 +320,7 @@ def single_faults(acc, d):
             faults += [("delete", i), ("dup", i), ("swap", i), ("truncate", i),
                        ("cut", i, 1), ("cut", i, 2), ("badchar", i, 0),
                        ("badchar", i, 1), ("badunits", i), ("unclose", i),
-                       ("unclose-quote", i), ("badword", i)]
+                       ("unclose-quote", i), ("badword", i), ("begin-form", i)]
             faults += [("replace", i, k) for k in range(len(PUNCT) + 4)]
         for f in faults:
             toks = apply_faults(base, [f])
